@@ -26,6 +26,7 @@ let streams : (string * stream) list = [
   ("C12", { gen = C12.gen; check = C12.check; search = C12.search; describe = C12.describe; tags = C12.tags; strict = false });
   ("C18", { gen = C18.gen; check = C18.check; search = C18.search; describe = C18.describe; tags = C18.tags; strict = false });
   ("C19", { gen = C19.gen; check = C19.check; search = C19.search; describe = C19.describe; tags = C19.tags; strict = false });
+  ("MB", { gen = Mb.gen; check = Mb.check; search = Mb.search; describe = Mb.describe; tags = Evalcommon.tags; strict = false });
   ("C01", { gen = C01.gen; check = C01.check; search = C01.search; describe = C01.describe; tags = Evalcommon.tags; strict = false });
   ("C02", { gen = C02.gen; check = C02.check; search = C02.search; describe = C02.describe; tags = Evalcommon.tags; strict = false });
 ]
